@@ -61,7 +61,8 @@ def run(chk: Check):
                 "enumeration: TLC enumerates every single fault (site x value: every used SAT/FAT word and neighbours set to each special "
                 "value, each in-range link, itself, extremes; directory pointers, counts, sizes, type bytes, header counts) and simulated "
                 "pairs/triples on generated AKAI and Roland images, plus mutated cue sheets, cue sheets with one 60 kB line of each character class in each position, random cue-like text, random byte strings and random multi-byte "
-                "corruptions; each runs ls at every level and export in a forked child under rlimits; non-trivial = distinct fault set")
+                "corruptions, and truncations of the base images at sector / cluster boundaries and inside; each runs ls at every level and export in a forked "
+                "child under rlimits; non-trivial = distinct fault set")
     for kind in ("partitions", "table", "keygroups", "cue"):
         chk.run_tlc("Scans", tlc.cfg_text(spec="Spec", constants=dict(TrimBacktracks=False, TableScanRealigns=True, Kind=kind, MaxSize=5 if thorough else 4, S=2, HeadLen=5),
                                           invariants=["StepBound", "Aligned"], properties=["Terminates"]), label=f"design: {kind} scan terminates, linear steps")
@@ -101,6 +102,25 @@ def run(chk: Check):
             jobs.append({"label": label + "-mdf", "faults": f, "names": [], "size": len(image) * 2352 // 2048,
                          "data": (lambda image=image, sites=sites, f=f: cw.to_mode1_2352(faults.apply(image, sites, f))),
                          "paths": paths[:2], "suffix": ".mdf", "extra": None})
+    # truncations of the two base images and of an image holding one mono sample spread over four sectors (header and first
+    # blocks readable, later sectors gone): every sector / cluster boundary of the populated part and a point inside each
+    long_case = naming.akai_files_case(["LONG MONO", "TAIL"], [14000, 50])
+    long_case["parts"][0]["vols"][0]["files"][0]["chain"] = [5, 8, 7, 9]
+    long_case["parts"][0]["vols"][0]["files"][1]["chain"] = [6]
+    long_case["parts"][0]["sat"] = [[4, 49152], [5, 8], [8, 7], [7, 9], [9, 49152], [6, 49152]]
+    long_case["nsect"] = 11
+    long_img = aw.build_image(long_case, chk.seed)
+    for label, (case, image, paths), unit, lo in (("akai", akai_base(chk), 8192, 0), ("roland", roland_base(chk), 9216, rw.A["data_fat"]),
+                                                  ("akai-long", (long_case, long_img, ["", "A:", "A:/VOL", "A:/VOL/LONG MONO"]), 8192, 0)):
+        top = len(image)
+        cuts = sorted({c for k in range(0, (top - lo) // unit + 1) for c in (lo + k * unit, lo + k * unit + unit // 2 + 1) if 0 < c < top})
+        if label == "roland":
+            cuts = [c for c in cuts if c >= rw.A["data"] - unit] + [rw.A["fat"] + 100, rw.A["sample_dir"] + 40, rw.A["data"] - 1]
+        if not thorough:
+            cuts = cuts[:: max(1, len(cuts) // 24)]
+        for c in cuts:
+            jobs.append({"label": label + "-truncated", "faults": [[c, 0]], "names": [("cut", c)], "size": c, "paths": paths, "suffix": ".img", "extra": None,
+                         "data": (lambda image=image, c=c: image[:c])})
     # cue sheets: every line replaced by each mutation
     lines, binlen = naming.cue_lines(["One", "Two"])
     text = cue.render(lines, 0, 1)
